@@ -656,6 +656,8 @@ def random_case(rng, max_len, t=None, keys=None):
     if r < 0.22:
         st = [literal()]
     elif r < 0.44:
+        if rng.random() < 0.35:
+            ptrs[0] = 0         # the very first big map of a chain has id 0 (only where the run allocates no id of its own: ids it hands out start at 0)
         st = [('id', ptrs[0])]
     elif r < 0.58:
         par, st = ptrs[0], [('lit', []) if rng.random() < 0.5 else literal()]
